@@ -480,6 +480,24 @@ func (p *Prog) lockOpOf(pkg *packages.Package, c *ast.CallExpr) *LockOp {
 	if !ok {
 		return nil
 	}
+	// the locker of a condition variable used as the mutex: x.cv.L.Lock() / Unlock()
+	if fn.Pkg() != nil && fn.Pkg().Path() == "sync" && (fn.Name() == "Lock" || fn.Name() == "Unlock") {
+		if ls, ok := ast.Unparen(sel.X).(*ast.SelectorExpr); ok && ls.Sel.Name == "L" {
+			if tv, ok := info.Types[ls.X]; ok && strings.HasSuffix(tv.Type.String(), "sync.Cond") {
+				class := "?cond.L"
+				if cs, ok := ast.Unparen(ls.X).(*ast.SelectorExpr); ok {
+					if otv, ok := info.Types[cs.X]; ok {
+						t := otv.Type
+						if pt, ok := t.(*types.Pointer); ok {
+							t = pt.Elem()
+						}
+						class = canonTypeName(stripTypeArgs(shorten(t.String()))) + "." + cs.Sel.Name + ".L"
+					}
+				}
+				return &LockOp{Path: exprPath(sel.X), Class: class, Mode: "W", Acquire: fn.Name() == "Lock"}
+			}
+		}
+	}
 	if mode, acq, try, ok := syncOp(fn); ok {
 		path := exprPath(sel.X)
 		if in, isSel := ast.Unparen(sel.X).(*ast.SelectorExpr); isSel {
